@@ -24,8 +24,12 @@ func injectModes() []string {
 // be the bytes after every later run, and a file without @tag annotation must
 // keep its original bytes.
 func checkIdempotent(c *InjectCase) string {
-	dir := newWorkDir()
-	defer os.RemoveAll(dir)
+	top := newWorkDir()
+	defer os.RemoveAll(top)
+	dir, err := workSub(top, c.Sub)
+	if err != nil {
+		return "harness: " + err.Error()
+	}
 	in, spans := c.File.Render()
 	path := filepath.Join(dir, c.File.Name)
 	if err := os.WriteFile(path, []byte(in), 0o644); err != nil {
@@ -72,6 +76,14 @@ func TestC07(t *testing.T) {
 		n := rapid.IntRange(1, 4).Draw(t, "runs")
 		for i := 0; i < n; i++ {
 			c.Hist = append(c.Hist, rapid.SampledFrom(injectModes()).Draw(t, "entry"))
+		}
+		withGlob := false
+		for _, m := range c.Hist {
+			withGlob = withGlob || m == "cli-p"
+		}
+		c.Sub = genDirName(t, withGlob)
+		if c.Sub != "" {
+			ev.Class("directory-name=" + c.Sub)
 		}
 		na, ov, _ := c.File.Annotated()
 		ev.Class(fmt.Sprintf("runs=%d", n))
